@@ -7,6 +7,10 @@ package main
 //   H <hid> <mode 0=grid 1=module> <res> <kind>
 //   I <p> <cx cy cz ex ey ez>            insert by participant p (grid mode: p = 0)
 //   J <p> / L <p>                         join / leave (module mode)
+//   A <p>                                 participant p switches to a session of its own and samples a plane there
+//                                         (for the observed session: a departure); a later J <p> switches it back
+//   B <p>                                 a new participant that first creates another session, samples a plane there,
+//                                         then switches to the observed session (for the observed session: a join)
 //   N                                     the session's grid object was replaced (new instance)
 //   X <what>                              the operation panicked (recovered); what: 1 insert 2 query
 //   S <planecount> <mergecount> <minx miny minz maxx maxy maxz> <rows> <cols> <res> <nplanes>
@@ -84,7 +88,7 @@ func (h *Hist) Text() string {
 		switch o.Kind {
 		case 'I':
 			fmt.Fprintf(&sb, "I %d %s %s\n", o.P, v3s(o.A), v3s(o.B))
-		case 'J', 'L':
+		case 'J', 'L', 'A', 'B':
 			fmt.Fprintf(&sb, "%c %d\n", o.Kind, o.P)
 		case 'Y', 'G':
 			fmt.Fprintf(&sb, "%c %s %s\n", o.Kind, v3s(o.A), v3s(o.B))
@@ -317,7 +321,24 @@ func (s sink) SendMsg(m hwebsocket.Msg) { *s.msgs = append(*s.msgs, m) }
 type part struct {
 	rh     *hagallws.RealtimeHandler
 	msgs   []hwebsocket.Msg
-	joined bool
+	joined bool // member of the observed session
+	away   bool // connected, member of a session of its own
+}
+
+// noSwitch runs A / B as a plain departure / join of a fresh connection (no other session is involved): the
+// control run that tells a cross-session effect from a defect of joins and departures themselves
+var noSwitch bool
+
+// elsewhere: the participant creates a session of its own and samples one plane there
+func (p *part) elsewhere(k int) bool {
+	if _, ok := p.join(""); !ok {
+		return false
+	}
+	p.joined = false
+	p.away = true
+	p.mod(&dagazpb.DagazQuadSample{Type: dagazpb.MsgType_MSG_TYPE_DAGAZ_QUAD_SAMPLE,
+		Samples: []*dagazpb.Quad{{Center: &dagazpb.Point{X: float32(40 + k%8), Y: 0, Z: 40}, Extents: &dagazpb.Point{X: 1, Y: 0, Z: 1}}}})
+	return true
 }
 
 var theKey, _ = crypto.GenerateKey()
@@ -462,27 +483,58 @@ func runModule(h *Hist, out *bufio.Writer) {
 	first := true
 	for _, o := range h.Ops {
 		switch o.Kind {
-		case 'J':
+		case 'J', 'B':
 			p := parts[o.P]
 			if p == nil {
 				p = newPart(store)
 				parts[o.P] = p
+				if o.Kind == 'B' && sid != "" && !noSwitch {
+					if !p.elsewhere(o.P) {
+						fmt.Fprintf(out, "B %d\nX 4\n", o.P)
+						continue
+					}
+				}
 			}
 			if p.joined {
 				continue
 			}
-			fmt.Fprintf(out, "J %d\n", o.P)
+			fmt.Fprintf(out, "%c %d\n", o.Kind, o.P)
 			s, ok := p.join(sid)
 			if !ok {
 				fmt.Fprintf(out, "X 4\n")
 				continue
 			}
+			p.away = false
 			if sid == "" {
 				sid = s
 			}
 			sess = p.rh.CurrentSession()
 			if first {
 				first = false
+			}
+			observe()
+		case 'A':
+			p := parts[o.P]
+			if p == nil || !p.joined {
+				continue
+			}
+			n := 0
+			for _, q := range parts {
+				if q.joined {
+					n++
+				}
+			}
+			if n <= 1 {
+				continue
+			}
+			fmt.Fprintf(out, "A %d\n", o.P)
+			if noSwitch {
+				p.rh.HandleDisconnect(nil)
+				p.joined = false
+				delete(parts, o.P)
+			} else if !p.elsewhere(o.P) {
+				fmt.Fprintf(out, "X 4\n")
+				continue
 			}
 			observe()
 		case 'L':
@@ -521,7 +573,7 @@ func runModule(h *Hist, out *bufio.Writer) {
 	}
 	// release the session (outside the trace)
 	for _, p := range parts {
-		if p.joined {
+		if p.joined || p.away {
 			p.rh.HandleDisconnect(nil)
 		}
 	}
